@@ -18,7 +18,17 @@
                      the nanosecond sub-field is present iff nanoseconds > 0
      FileSize()    = content length for File/Raw (inline data + child block sizes), length of the
                      target path for Symlink, 0 for directories
-   One action per public mutator of ipld/unixfs.FSNode; Serialize/Parse is the identity.  *)
+   One action per public mutator of ipld/unixfs.FSNode; Serialize/Parse is the identity.
+
+   ENTRY POINTS.  The FSNode setters are not the only way to give a node a mode and an mtime: the
+   stat-taking constructors of ipld/unixfs (FilePBDataWithStat, FolderPBDataWithStat,
+   EmptyDirNodeWithStat, HAMTShardDataWithStat), the plain constructors followed by the setters on
+   the parsed node (WrapData, SymlinkData, FilePBData, FolderPBData, HAMTShardData, NewFSNode), and
+   the paths that call them (hamt.Shard.SetStat, uio directories created WithStat and their
+   Basic<->HAMT conversions and reloads, the importer's FileMode/FileModTime) all take the same
+   (os.FileMode, time.Time) pair.  The property does not depend on the entry point: whatever the
+   way in, the node read back has the metadata model of  NewFSNode(type); SetMode(mode);
+   SetModTime(mtime)  (EntryTab, AfterEntry, InitEntry below).  *)
 EXTENDS Naturals, Integers, Sequences, FiniteSets, TLC, Json
 
 CONSTANTS Types,      \* node types explored
@@ -57,6 +67,11 @@ TypeBits(t) == IF t \in {"Directory", "HAMTShard"} THEN {31} ELSE IF t = "Symlin
 ZeroTimeMag == <<63232, 30609, 14, 0>>                   \* 62135596800 in base-2^16 limbs
 IsZeroTime(t) == t.neg /\ t.mag = ZeroTimeMag /\ t.ns = 0
 ZeroTime == [neg |-> TRUE, mag |-> ZeroTimeMag, ns |-> 0]
+
+\* what the accessors must return for a stored permission value / a given instant
+ModeOf(ty, pm) == IF pm = 0 THEN {} ELSE OsOfUnix(pm) \cup TypeBits(ty)
+TimeOf(t)      == IF IsZeroTime(t) THEN ZeroTime ELSE t
+WireOf(t)      == [present |-> ~IsZeroTime(t), nanos |-> ~IsZeroTime(t) /\ t.ns > 0]
 
 (* ---------------------------------------------------------------- state *)
 VARIABLES typ,
@@ -103,6 +118,48 @@ RemoveBlockSize(i) == /\ i \in 1..Len(blocks)
 RemoveAllBlockSizes == /\ blocks' = <<>> /\ fsize' = dlen
                        /\ UNCHANGED <<typ, perm, ext, modeSet, mtime, dlen>>
 
+(* ---------------------------------------------------------------- entry points *)
+\* name -> node type produced, harness package that can reach it, and the rule for the PRESENCE of the mode field
+\* right after the entry point (what is READ BACK never depends on the entry point):
+\*   "setter": the value goes through FSNode.SetMode            -> field present iff permission value # 0
+\*   "ctor"  : stat-taking constructor, documented "pass mode = 0 to omit the field"
+\*                                                              -> field present iff the mode ARGUMENT # 0
+\*             (a type-only os.FileMode such as ModeDir|0 stores a field of value 0; Mode() still reads 0)
+E(ty, pk, ru) == [typ |-> ty, pkg |-> pk, rule |-> ru]
+EntryTab == [ FilePBDataWithStat    |-> E("File",      "unixfs", "ctor"),
+              FolderPBDataWithStat  |-> E("Directory", "unixfs", "ctor"),
+              EmptyDirNodeWithStat  |-> E("Directory", "unixfs", "ctor"),
+              HAMTShardDataWithStat |-> E("HAMTShard", "unixfs", "ctor"),
+              \* plain constructor, FSNodeFromBytes, then SetMode + SetModTime on the parsed node
+              WrapDataSetters       |-> E("Raw",       "unixfs", "setter"),
+              SymlinkDataSetters    |-> E("Symlink",   "unixfs", "setter"),
+              FilePBDataSetters     |-> E("File",      "unixfs", "setter"),
+              FolderPBDataSetters   |-> E("Directory", "unixfs", "setter"),
+              HAMTShardDataSetters  |-> E("HAMTShard", "unixfs", "setter"),
+              NewFSNodeMetadata     |-> E("Metadata",  "unixfs", "setter"),
+              \* the paths that call them (harness in package ipld/unixfs/io)
+              HamtShardSetStat      |-> E("HAMTShard", "io", "ctor"),      \* hamt.NewShard; SetStat; Node()
+              UioBasicWithStat      |-> E("Directory", "io", "ctor"),      \* NewBasicDirectory(WithStat); GetNode
+              UioHAMTWithStat       |-> E("HAMTShard", "io", "ctor"),      \* NewHAMTDirectory(WithStat); GetNode
+              UioBasicToHAMT        |-> E("HAMTShard", "io", "ctor"),      \* NewDirectory(WithStat), grown until it is sharded
+              UioHAMTToBasic        |-> E("Directory", "io", "ctor"),      \* ... and shrunk until it is basic again
+              UioReloadHAMT         |-> E("HAMTShard", "io", "ctor"),      \* sharded node reloaded (NewDirectoryFromNode), changed, GetNode
+              UioReloadBasic        |-> E("Directory", "io", "ctor"),      \* basic node reloaded, changed, GetNode
+              ImporterOneChunk      |-> E("File",      "io", "setter"),    \* balanced.Layout with FileMode/FileModTime, 1 chunk
+              ImporterManyChunks    |-> E("File",      "io", "setter") ]   \* ... several chunks (the root carries the metadata)
+EntryNames == DOMAIN EntryTab
+
+\* the metadata model after entry point en was given (bits, t): that of NewFSNode(type); SetMode(bits); SetModTime(t)
+AfterEntry(en, bits, t) == [typ |-> EntryTab[en].typ, perm |-> UnixOfOs(bits), ext |-> 0, mtime |-> TimeOf(t),
+                            modeSet |-> IF EntryTab[en].rule = "ctor" THEN bits # {} ELSE UnixOfOs(bits) # 0]
+\* a node made through an entry point (fresh: no data, no blocks) is a further INITIAL state of the mutator state
+\* machine (it leaves out the type-only argument of a "ctor" entry: UnsetRule is about the setters)
+InitEntry == \E en \in EntryNames, p \in PermVals, j \in JunkBits, t \in TimeVals :
+                LET s == AfterEntry(en, OsOfUnix(p) \cup j, t) IN
+                /\ (p # 0 \/ j = {}) /\ s.typ \in Types
+                /\ typ = s.typ /\ perm = s.perm /\ ext = s.ext /\ mtime = s.mtime /\ modeSet = s.modeSet
+                /\ dlen = 0 /\ blocks = <<>> /\ fsize = 0
+
 Next == \/ \E p \in PermVals, j \in JunkBits : SetModeOs(OsOfUnix(p) \cup j)
         \/ \E p \in PermVals : SetModeUnix(p)
         \/ \E e \in ExtVals : SetExt(e)
@@ -112,13 +169,13 @@ Next == \/ \E p \in PermVals, j \in JunkBits : SetModeOs(OsOfUnix(p) \cup j)
         \/ \E s \in BlockSizes : AddBlockSize(s)
         \/ \E i \in 1..MaxBlocks : RemoveBlockSize(i)
         \/ RemoveAllBlockSizes
-Spec == Init /\ [][Next]_vars
+Spec == (Init \/ InitEntry) /\ [][Next]_vars
 
 (* ---------------------------------------------------------------- observables (what the accessors must return) *)
-ModeObs     == IF perm = 0 THEN {} ELSE OsOfUnix(perm) \cup TypeBits(typ)
+ModeObs     == ModeOf(typ, perm)
 ExtObs      == ext
 ModTimeObs  == mtime                                  \* ZeroTime: ModTime().IsZero()
-MtimeWire   == [present |-> ~IsZeroTime(mtime), nanos |-> ~IsZeroTime(mtime) /\ mtime.ns > 0]
+MtimeWire   == WireOf(mtime)
 SumBlocks   == LET S[k \in 0..Len(blocks)] == IF k = 0 THEN 0 ELSE S[k - 1] + blocks[k] IN S[Len(blocks)]
 Content     == dlen + SumBlocks
 FileSizeObs == IF typ \in {"File", "Raw"} THEN fsize ELSE IF typ = "Symlink" THEN dlen ELSE 0
@@ -132,6 +189,11 @@ ModeReadBack == /\ UnixOfOs(ModeObs) = perm
                 /\ ModeObs \ PermOsBits = (IF perm = 0 THEN {} ELSE TypeBits(typ))
                 /\ (perm = 0 => ModeObs = {})
 UnsetRule    == modeSet = (perm # 0 \/ ext # 0)
+\* whatever the entry point, what is read back is what the setters would have stored
+EntryAgnostic == \A en \in EntryNames, p \in PermVals, j \in JunkBits, t \in TimeVals :
+                   LET s == AfterEntry(en, OsOfUnix(p) \cup j, t) IN
+                   /\ UnixOfOs(ModeOf(s.typ, s.perm)) = p /\ s.mtime = TimeOf(t) /\ s.ext = 0
+                   /\ ((p # 0 \/ j = {}) => s.modeSet = (p # 0))
 FileSizeIsContent == /\ (typ \in {"File", "Raw"} => FileSizeObs = Content)
                      /\ (typ = "Symlink" => FileSizeObs = dlen)
 \* the two conversions are inverse on the 12-bit permission values (checked once, all 4096)
